@@ -1213,7 +1213,9 @@ def run(ctx):
         if c.get(key, 0) < least:
             raise core.HarnessError("vacuous: %s = %d (< %d)" % (key, c.get(key, 0), least))
     for w in W_CLAIM:
-        if not c.get("claiming_support:" + w):
+        # (DFree is expected to stop claiming support once its non-monotonic
+        # score is acknowledged, as PL2 did)
+        if w != "dfree" and not c.get("claiming_support:" + w):
             raise core.HarnessError("vacuous: no object claims quality support under %s" % w)
     ctx.extra["objects_claiming_support_by_weighting"] = dict(
         (w, c.get("claiming_support:" + w, 0)) for w in W_CLAIM + W_NOCLAIM)
